@@ -24,6 +24,7 @@ namespace c15 {
             bool order = true, two = true, clean = true, sentinels = true;
             std::vector<leaf_node*> leaves;
             size_t internals = 0, depth = 0;
+            std::string shape;
         };
 
         static ekey key_of_flags( tree_node* n )
@@ -47,6 +48,7 @@ namespace c15 {
                 if ( has_lo && elt( k, lo )) st.order = false;       // need lo <= k
                 if ( has_hi && !elt( k, hi )) st.order = false;      // need k < hi
                 st.leaves.push_back( l );
+                st.shape += k.inf ? ( k.inf == 1 ? "Linf1" : "Linf2" ) : "L" + std::to_string( k.k );
                 return;
             }
             internal_node* in = static_cast<internal_node*>( n );
@@ -56,8 +58,11 @@ namespace c15 {
             if ( in->m_pUpdate.load( atomics::memory_order_acquire ).bits() != update_desc::Clean ) st.clean = false;
             if ( has_lo && elt( k, lo )) st.order = false;
             if ( has_hi && elt( hi, k )) st.order = false;
+            st.shape += ( k.inf ? ( k.inf == 1 ? "Iinf1" : "Iinf2" ) : "I" + std::to_string( k.k )) + "(";
             walk( in->m_pLeft.load( atomics::memory_order_acquire ), has_lo, lo, true, k, d + 1, st, leafkey );
+            st.shape += ",";
             walk( in->m_pRight.load( atomics::memory_order_acquire ), true, k, has_hi, hi, d + 1, st, leafkey );
+            st.shape += ")";
         }
 
         // leafkey( leaf_node* ) -> long, leafval( leaf_node* ) -> long
@@ -75,6 +80,7 @@ namespace c15 {
                 add_kv( mo.iter, leafkey( st.leaves[i] ), leafval( st.leaves[i] ));
                 if ( i > 0 && !( leafkey( st.leaves[i - 1] ) < leafkey( st.leaves[i] ))) sorted = false;
             }
+            mo.shape = st.shape;
             add_struct( mo, "ellen_bst_order", st.order && sorted );
             add_struct( mo, "ellen_internal_two_children", st.two && st.internals + 1 == n, "internals=" + std::to_string( st.internals ) + ",leaves=" + std::to_string( n ) + ",depth=" + std::to_string( st.depth ));
             add_struct( mo, "ellen_sentinels", st.sentinels );
